@@ -80,9 +80,41 @@ def stroke_touches_col(tm, c: int) -> bool:
     return tm.col_stroke_seq.get(c, 0) > tm.col_w_seq.get(c, 0)
 
 
+def live_geometry_hook(sim: Sim, ds, slot, path) -> None:
+    """After a successful save (so the read cannot influence what was written) note what the OPEN document reports:
+    names, header counts, coordinates, caption state, every row height and column width, total height and width."""
+    slot.live_geom = None
+    if not sim.cfg.get("live_geometry_after_save"):
+        return
+    from dsim.ops_look import geom_snapshot
+
+    with warnings.catch_warnings():
+        warnings.simplefilter("ignore")
+        slot.live_geom = geom_snapshot(ds.doc, sizes=True)
+    sim.probe("live_geometry_noted")
+
+
 def reopen_check(sim: Sim, doc, slot) -> None:
     """C16.set_values_survive on a probe instance of the reopened file."""
     m = slot.model
+    live = getattr(slot, "live_geom", None)
+    if live is not None:
+        from dsim.ops_look import geom_snapshot
+
+        with warnings.catch_warnings():
+            warnings.simplefilter("ignore")
+            got = geom_snapshot(doc, sizes=True)
+        for k in sorted(set(live) | set(got), key=repr):
+            if live.get(k) != got.get(k):
+                what = k[1] if isinstance(k[0], tuple) else k[0]
+                a_, b_ = live.get(k), got.get(k)
+                if isinstance(a_, tuple) and isinstance(b_, tuple) and len(a_) == len(b_) and what in ("rows", "cols"):
+                    idx = [i for i, (x, y) in enumerate(zip(a_, b_)) if x != y]
+                    detail = f"index {idx[:5]}: open document {[a_[i] for i in idx[:5]]}, reopened {[b_[i] for i in idx[:5]]}"
+                else:
+                    detail = f"open document {a_!r}, reopened {b_!r}"
+                sim.violation("C16.open_equals_reopened", {"what": what}, f"reopened {slot.name} {k}: {detail}")
+        sim.probe("live_geometry_compared")
     for si, ti, tm in m.tables():
         table = doc.sheets[si].tables[ti]
         where = f"reopened {slot.name} table {si}/{ti} {tm.name!r}"
